@@ -39,6 +39,9 @@ type rRound struct {
 	StopAt   int  `json:"stop_at,omitempty"`   // until-eof/until-err: index of the callback invocation that aborts
 	EEDHooks int  `json:"eed_hooks,omitempty"` // hooks registered before this round
 	EnvHooks int  `json:"env_hooks,omitempty"`
+	// LastStatus: further status bits on the last packet of the response besides end-of-message (the acknowledgement
+	// of an attention is EOM|ATTNACK): it is the end of the message all the same.
+	LastStatus int `json:"last_status,omitempty"`
 	// Poll: the consumer starts the call with wait=false and retries (yielding) while nothing is ready.
 	Poll bool `json:"poll,omitempty"`
 	// Slow: the packets of the response arrive spread over 8 simulated seconds (longer than the packet read
@@ -281,6 +284,9 @@ func genRounds(r *Rand, nRounds int, eedPct, envPct int, hooks bool) []rRound {
 		}
 		_, cb := expectRound(items)
 		rd.StopAt = r.Intn(len(cb))
+		if r.Pct(10) {
+			rd.LastStatus = Pick(r, []int{0x02, 0x04, 0x08, 0x0e})
+		}
 		rd.Poll = rd.Mode != "manual" && r.Pct(25)
 		rd.ErrEOF = rd.Mode == "until-err" && r.Pct(30)
 		rd.Slow = !rd.Poll && r.Pct(8)
@@ -481,7 +487,9 @@ func runRounds(p *roundsPlan, schedSeed uint64, replay []simrt.Choice, lenient, 
 			}
 			return
 		}
-		pr.SendResponse(m.Channel, body, p.Rounds[ri].Cuts)
+		pks := peer.Packetise(body, p.Rounds[ri].Cuts, peer.BufResponse, m.Channel, true)
+		pks[len(pks)-1][1] |= byte(p.Rounds[ri].LastStatus)
+		pr.SendPackets(pks)
 	}
 	s.Net.Setup = func(c *simrt.Conn) { c.ReadSizes = p.ReadSizes }
 	obs := &roundsObs{rounds: make([]roundObs, len(p.Rounds)), concHook: map[int]int{}}
